@@ -60,7 +60,13 @@ func ToAST(e *ref.E) ast.Expr {
 		for i, a := range e.Args[1:] {
 			xs[i] = ToAST(a)
 		}
-		return ast.Call(ToAST(e.Args[0]), xs, pos.UnknownCol, p)
+		callee := ToAST(e.Args[0])
+		if k := e.Args[0].K; k == ref.EMember || k == ref.EIdent {
+			// a bare member / identifier callee would mean a method call / a
+			// function name: the call of a function VALUE needs the group
+			callee = ast.Group(callee, p)
+		}
+		return ast.Call(callee, xs, pos.UnknownCol, p)
 	case ref.EMember:
 		return ast.Member(ToAST(e.Args[0]), ast.Var(e.Name, p), pos.UnknownCol, p)
 	case ref.ESubscript:
